@@ -212,6 +212,18 @@ return len(a)*10 + len(b)
 			NParams: map[string]int{"§_F0": 1},
 		},
 		{
+			Kind: "corpus", Key: "append-multi-arg-eval",
+			Note: "append(a, x, f(a)) appends x in place before f(a) is evaluated",
+			Plain: `func §_F0(x int) int {
+a := []int{x}
+a = append(a, 7, len(a))
+return a[2]
+}
+`,
+			Entries: []*Entry{{Name: "§_F0", Params: []Kind{KInt}, Ret: KInt, Tuples: ints(0, 5)}},
+			NParams: map[string]int{"§_F0": 1},
+		},
+		{
 			Kind: "corpus", Key: "minint64-literal",
 			Note: "the literal -9223372036854775808 is compiled as NEGATE of the wrapped constant 9223372036854775808",
 			Plain: `func §_F0(x int) int {
